@@ -64,6 +64,9 @@ def gen(ctx):
     for rs, mem, out in (("1", 1, 2), ("1.2", 2, 3), ("2.3.4", 3, 1), ("7.8", 7, 9), ("8.7", 7, 9)):
         add("envseq %s %d %d %s" % (rs, mem, out, hexs(r.bytes(20))), "envseq:%drcpts" % len(rs.split(".")))
         add("signenvseq %s %d %d %s" % (rs, mem, out, hexs(r.bytes(20))), "signenvseq:%drcpts" % len(rs.split(".")))
+        for size in (0, 20, 100):
+            add("lowseq env %s %d %d %s" % (rs, mem, out, hexs(r.bytes(size))), "lowseq:env:%drcpts" % len(rs.split(".")))
+            add("lowseq signenv %s %d %d %s" % (rs, mem, out, hexs(r.bytes(size))), "lowseq:signenv:%drcpts" % len(rs.split(".")))
     # content sizes that make some DER element of the message exactly 127/128, 255/256, 65535/65536 bytes long
     for size in list(range(60, 140)) + list(range(200, 262)) + list(range(65470, 65545)):
         cls = "~128" if size < 150 else ("~256" if size < 300 else "~65536")
